@@ -105,14 +105,14 @@ macro_rules! string_concat {
         const __ARGS_81608BFNA5: $crate::string::__StrConcatArg =
             $crate::string::__NormalizeConcatArg($slice).conv();
         {
-            const LEN: $crate::__::usize = $crate::string::concat_sum_lengths(__ARGS_81608BFNA5);
+            const __LEN_81608BFNA5: $crate::__::usize = $crate::string::concat_sum_lengths(__ARGS_81608BFNA5);
 
-            const CONC: &$crate::string::ArrayStr<LEN> =
+            const __CONC_81608BFNA5: &$crate::string::ArrayStr<{ __LEN_81608BFNA5 }> =
                 &$crate::string::concat_strs(__ARGS_81608BFNA5);
 
-            const STR: &$crate::__::str = CONC.as_str();
+            const __STR_81608BFNA5: &$crate::__::str = __CONC_81608BFNA5.as_str();
 
-            STR
+            __STR_81608BFNA5
         }
     }};
 }
@@ -161,14 +161,14 @@ macro_rules! string_join {
         };
 
         {
-            const LEN: $crate::__::usize = $crate::string::join_sum_lengths(__ARGS_81608BFNA5);
+            const __LEN_81608BFNA5: $crate::__::usize = $crate::string::join_sum_lengths(__ARGS_81608BFNA5);
 
-            const CONC: &$crate::string::ArrayStr<LEN> =
+            const __CONC_81608BFNA5: &$crate::string::ArrayStr<{ __LEN_81608BFNA5 }> =
                 &$crate::string::join_strs(__ARGS_81608BFNA5);
 
-            const STR: &$crate::__::str = CONC.as_str();
+            const __STR_81608BFNA5: &$crate::__::str = __CONC_81608BFNA5.as_str();
 
-            STR
+            __STR_81608BFNA5
         }
     }};
 }
